@@ -183,7 +183,7 @@ impl ToRaw for EvaluatedTx {
                 self.raw_pre(),
                 //# C01:inputs_serialised_in_order
                 bytes@ == le32(self.version) + self.in_count.buf@ + ins_wire(self.inputs@, it1.index@ as int),
-//@before `bytes.extend(&i.to_bytes());`
+//@before `bytes.extend(&i`
             proof { lemma_ins_prefix2(self.inputs@, it1.index@ as int); assert(*i == self.inputs@[it1.index@ as int]); }
 //@loop 2 label=it2
             invariant
@@ -193,7 +193,7 @@ impl ToRaw for EvaluatedTx {
                 //# C01:outputs_serialised_in_order_without_witness_data
                 bytes@ == le32(self.version) + self.in_count.buf@ + ins_wire(self.inputs@, self.inputs@.len() as int)
                     + self.out_count.buf@ + eouts_wire(self.outputs@, it2.index@ as int),
-//@before `bytes.extend(&o.out.to_bytes());`
+//@before `bytes.extend(&o`
             proof { lemma_eouts_prefix2(self.outputs@, it2.index@ as int); assert(*o == self.outputs@[it2.index@ as int]); }
 //@end
 }
